@@ -198,7 +198,8 @@ def rand_bosonic_nongaussian(rng, n):
     ops = []
     for m in range(n):
         if rng.random() < 0.6:   # cat states are exact in the bosonic representation (its Fock states are approximations)
-            ops.append(dict(cls="Catstate", regs=[m], pars=[round(rng.uniform(0.4, 0.9), 2), sim.angle(rng), rng.choice([0, 1])]))
+            ops.append(dict(cls="Catstate", regs=[m], pars=[round(rng.uniform(0.4, 0.9), 2), sim.angle(rng),
+                                                            rng.choice([0, 1, 0.5, 0.25, 1.5])]))     # any parity phase
     for _ in range(rng.randint(1, 5)):
         ops.append(sim.rand_gaussian_op(rng, n, allow_prep=False, thermal_loss=False))
     return dict(n=n, ops=ops)
@@ -245,6 +246,7 @@ def run(ctx, sf):
     sf.hbar = 2
     simcorr.run_fock_corr(ctx, ctx.n(330, 3300))
     simcorr.run_bos_corr(ctx, ctx.n(100, 1000))
+    simcorr.run_cat_corr(ctx, ctx.n(30, 300))
     simcorr.run_gauss_corr(ctx, ctx.n(150, 1500))
     for spec in corpus():
         ctx.count("corpus", spec, nontrivial(spec))
@@ -277,6 +279,29 @@ def run(ctx, sf):
         for o in spec["ops"]:
             ctx.tally("op:" + o["cls"] + (".H" if o.get("dagger") else ""))
         check_program(ctx, sf, spec, fock=fock)
+    # the FIRST preparation of a run placed after gates with complex phases: the Fock simulator still holds a ket then and takes
+    # its ket -> (trace out, re-insert) path; every back end against the reference
+    for it in range(ctx.n(12, 120)):
+        n = rng.choice([2, 2, 3])
+        ops_ = []
+        for m in range(n):
+            ops_.append(dict(cls="Sgate", regs=[m], pars=[round(rng.uniform(0.1, 0.3), 3) * rng.choice([1, -1]), sim.angle(rng)]))
+            ops_.append(dict(cls="Dgate", regs=[m], pars=[round(rng.uniform(0.1, 0.4), 3), sim.angle(rng)]))
+        for _ in range(rng.randint(1, 2)):
+            a_, b_ = rng.sample(range(n), 2)
+            ops_.append(dict(cls="BSgate", regs=[a_, b_], pars=[round(rng.uniform(0.3, 1.2), 3), sim.angle(rng)]))
+        if rng.random() < 0.5:
+            ops_.append(dict(cls="Rgate", regs=[rng.randrange(n)], pars=[sim.angle(rng)]))
+        t = rng.randrange(n)
+        prep = rng.choice([dict(cls="Coherent", regs=[t], pars=[round(rng.uniform(0.1, 0.5), 3), sim.angle(rng)]),
+                           dict(cls="Squeezed", regs=[t], pars=[round(rng.uniform(0.1, 0.3), 3), sim.angle(rng)]),
+                           dict(cls="Vacuum", regs=[t], pars=[]),
+                           dict(cls="DisplacedSqueezed", regs=[t], pars=[0.2, sim.angle(rng), 0.15, sim.angle(rng)])])
+        ops_.append(prep)
+        ops_.append(sim.rand_gaussian_op(rng, n, allow_prep=False, allow_channel=False))
+        spec = dict(n=n, ops=ops_)
+        ctx.count("program:mid-circuit-prep", spec, True, sample=spec)
+        check_program(ctx, sf, spec, fock=True)
     for it in range(ctx.n(30, 300)):
         spec = rand_fock_program(rng, rng.choice([1, 2, 2, 3]))
         ctx.count("fock-pure-vs-mixed", spec, nontrivial(spec) or spec["n"] >= 2)
